@@ -67,7 +67,11 @@ func (h *spinHook) Fire(e *log.Entry) error {
 	}
 	h.mu.Unlock()
 	if n > spinLimit {
-		select {} // park the spinning goroutine durably; the violation is reported by the caller
+		// End the spinning goroutine. Goexit runs its deferred calls (logrus holds its logger
+		// mutex while firing hooks; parking here would block every other logging goroutine on a
+		// sync.Mutex, which synctest does not consider durable). The violation is reported by
+		// the caller through Spins().
+		runtime.Goexit()
 	}
 	return nil
 }
